@@ -45,6 +45,10 @@ func genAnnotation(r Rnd, p, q int) string {
 
 var annotPunct = []string{"/pets/", "/", "a/b", "same as /cats/", "*", "x*", "**", "/*", "//", "(see)", ")", "(", "\"q\"", "it's", "50%", "GET", "200", "Body", "@t1", "{id}", "café", "#1", "a#b", "# c", "\\", "x,y", "{}", "[1]"}
 
+var keywordLookalikes = []string{"URLs", "Titles", "2000", "404s", "GETs", "POSTed", "PUTs", "Pathological", "INFOrmation", "Bodybuilders",
+	"Tagsoup", "TAGs", "Methods:", "Requests", "Results", "Versions", "Queryable", "PASTEd", "INCLUDEs", "TYPEs", "ENUMs", "MACROs",
+	"Protocols", "SERVERs", "JSIGHTs", "Paramset", "Descriptions", "HEADers", "Headers:", "DELETEd", "PATCHes", "BaseUrls", "OperationIds", "TYPE@a", "200,", "GET-request"}
+
 func genDescription(r Rnd) []string {
 	n := 1 + r.Intn(4)
 	if chance(r, 1, 6) {
@@ -57,6 +61,9 @@ func genDescription(r Rnd) []string {
 			ll = append(ll, "")
 		case i > 0 && chance(r, 1, 4):
 			ll = append(ll, "  "+genWords(r, 1+r.Intn(3)))
+		case chance(r, 1, 8):
+			// a line that begins with a word of which a keyword is a proper prefix: text, not a directive
+			ll = append(ll, pick(r, keywordLookalikes)+" "+genWords(r, 1+r.Intn(2)))
 		default:
 			ll = append(ll, genWords(r, 1+r.Intn(5)))
 		}
